@@ -3,6 +3,7 @@ mod api;
 mod api_app;
 mod api_app2;
 mod api_gen;
+mod api_intro;
 mod api_transport;
 mod entropy;
 mod exec;
